@@ -142,6 +142,13 @@ package cisco
 //vc:  invariant[C02,C14] 1 "for _, r := range diff" @blockNumbersBelowCounter forall k int :: { idx2Block[k] } 0 <= k && k < len(idx2Block) ==> idx2Block[k] <= maxID
 //vc:  invariant[C02,C14] 3 "for i, id0 := range idx2Block[r.LowA:]" @splitNumberUnused (forall k int :: { idx2Block[k] } 0 <= k && k < len(idx2Block) ==> idx2Block[k] <= maxID) && (forall k int :: { loopold(idx2Block[k]) } 0 <= k && k < len(idx2Block) ==> loopold(idx2Block[k]) < maxID)
 //vc:  assert[C02,C14] after "idx2Block[r.LowA+i] =" @splitTailGetsFreshNumber forall k int :: { loopold(idx2Block[k]) } 0 <= k && k < len(idx2Block) ==> loopold(idx2Block[k]) < idx2Block[r.LowA+i]
+// the list of pending deletes is built once, in device order, before the first
+// insert is planned; planning inserts and moves leaves it as it is (a moved
+// line stays in the list with its command cleared), so the deletes that follow
+// are issued bottom-up (proved: the list keeps its length - it is a local that
+// no closure writes; the order of its entries is not part of the clause)
+//vc:  invariant[C02,C14] 5 "for _, r := range diff" @pendingDeleteListUntouched len(del) == loopold(len(del))
+//vc:  invariant[C02,C14] 7 "for i, b := range run" @pendingDeleteListUntouched len(del) == loopold(len(del))
 //vc:  assign at "action0 := getIOSAction(run[0])" runUniform = true
 //vc:  assign at "action0 == getIOSAction(b)" runUniform = runUniform && strings.Cut(b.parsed, " ") == action0
 //vc:  invariant[C02,C14] 6 "for tail > 0 && getIOSAction(run[tail-1]) == getIOSAction(run[tail])" @tailHasOneAction 0 <= tail && tail < len(run) && (forall j int :: { run[j] } tail <= j && j < len(run) ==> strings.Cut(run[j].parsed, " ") == strings.Cut(run[len(run)-1].parsed, " "))
